@@ -14,6 +14,8 @@ import GV.Model.Direct
 import GV.Proofs.DirectCorrect
 import GV.Model.Desugar
 import GV.Proofs.DesugarOnce
+import GV.Model.Names
+import GV.Proofs.NamesPlain
 
 namespace GV.Props.C01
 open GV.Ctrl GV.Direct GV.Proofs.Direct
@@ -138,5 +140,108 @@ example : noTmp (.index (.sel (.opq 1) 0) (.opq 2)) = true ∧ addressable (.ind
   decide
 
 end Desugar
+
+/-! ## JavaScript identifier allocation, minification off -/
+section NamesPlain
+open GV.Names GV.Proofs.NamesPlain
+
+/-- encoded names a history asks for (`encodeIdent` of every requested name and of every function reference) -/
+def bases (ops : List Op) : List Name := ops.flatMap opBase
+
+/-- **names_distinct_plain** [INV] — for EVERY history of nested function contexts (enter a function literal / leave
+    it / allocate a local or package-level name in the innermost context; any scope tree, any names), with minification
+    OFF: at every moment the JavaScript names in scope — all package-level names and the locals of all enclosing
+    functions, handed out as `name`, `name$1`, `name$2` … from the `allVars` counters that a nested context inherits —
+    are pairwise distinct and none is a reserved word. Side condition, exactly what the scheme needs: on the encoded
+    names that occur, `(name, n) ↦ name$n` is injective (`RenderInj`: no encoded name is another one followed by
+    `$<digits>`); see `renderInj_ascii` / `render_clash` for when it holds / fails. This is the statement
+    `GV.Props.C16.names_distinct_plain` left open (there without the side condition, which makes it false). -/
+theorem names_distinct_plain (ops : List Op) (st : NState) (hinj : RenderInj (bases ops))
+    (h : runOps false initState ops = some st) :
+    (visible st).Nodup ∧ (∀ n ∈ visible st, n ∉ reserved) := by
+  have hi := inv_run_plain (bases ops) hinj ops initState st (initP _)
+    (fun op hop b hb => List.mem_flatMap.mpr ⟨op, hop, hb⟩) h
+  exact ⟨hi.nodup, hi.notres⟩
+
+/-- a name handed out is new: it was not in scope before the allocation -/
+theorem names_fresh_plain (ops : List Op) (st : NState) (name : Name) (pk : Bool) (c : List Scope) (v : Name)
+    (hinj : RenderInj (encodeIdent name :: bases ops)) (h : runOps false initState ops = some st)
+    (ha : newVariable false name pk st.chain = some (c, v)) : v ∉ visible st := by
+  have hi := inv_run_plain (encodeIdent name :: bases ops) hinj ops initState st (initP _)
+    (fun op hop b hb => List.mem_cons_of_mem _ (List.mem_flatMap.mpr ⟨op, hop, hb⟩)) h
+  exact (inv_req_plain _ hinj hi (by simp) ha).2
+
+/-- **encodeIdent_inj**, ASCII part — identifiers made of `[A-Za-z0-9_]` (and `.`, `-`, `~`) are left alone by
+    `encodeIdent`, contain no `$`, and on such names `name$n` is injective: no clash between names and counters. -/
+theorem renderInj_ascii (ops : List Op)
+    (hreq : ∀ op ∈ ops, match op with
+      | .req name _ => ∀ c ∈ name, unreserved c = true
+      | .push fn => ∀ c ∈ fn, unreserved c = true
+      | .pop => True) : RenderInj (bases ops) := by
+  apply renderInj_noDollar
+  intro b hb
+  simp only [bases, List.mem_flatMap] at hb
+  obtain ⟨op, hop, hb⟩ := hb
+  have := hreq op hop
+  cases op with
+  | pop => simp [opBase] at hb
+  | req name pk =>
+    simp only [opBase, List.mem_singleton] at hb
+    rw [hb, encodeIdent_ascii name this]
+    intro hm
+    exact (unreserved_lt 36 (this 36 hm)).2 rfl
+  | push fn =>
+    simp only [opBase, List.mem_singleton] at hb
+    rw [hb]
+    exact encodeIdent_dots_noDollar fn this
+
+theorem encodeIdent_ascii_id (name : Name) (h : ∀ c ∈ name, unreserved c = true) : encodeIdent name = name :=
+  encodeIdent_ascii name h
+
+/-- corollary: histories over ASCII identifiers need no side condition -/
+theorem names_distinct_plain_ascii (ops : List Op) (st : NState)
+    (hreq : ∀ op ∈ ops, match op with
+      | .req name _ => ∀ c ∈ name, unreserved c = true
+      | .push fn => ∀ c ∈ fn, unreserved c = true
+      | .pop => True)
+    (h : runOps false initState ops = some st) :
+    (visible st).Nodup ∧ (∀ n ∈ visible st, n ∉ reserved) :=
+  names_distinct_plain ops st (renderInj_ascii ops hreq) h
+
+/-- the side condition is needed: a byte that escapes to two DECIMAL hex digits clashes with a counter — the encoded
+    name of `"x\x10"` is `x$10`, which is also the eleventh `x`. (Such bytes do not occur in Go identifiers: their
+    non-ASCII characters are UTF-8 sequences whose lead byte escapes to `$C2` … `$F4`, never decimal.) -/
+theorem render_clash : encodeIdent [120, 16] = [120, 36, 49, 48] ∧ ¬ RenderInj [encodeIdent [120], encodeIdent [120, 16]] := by
+  have e1 : encodeIdent [120, 16] = [120, 36, 49, 48] := by
+    rw [encodeIdent]; simp [unreserved, hexU]
+    rw [encodeIdent]; simp [unreserved, hexU]
+    rw [encodeIdent]
+  have e0 : encodeIdent [120] = [120] := encodeIdent_ascii [120] (by decide)
+  refine ⟨e1, ?_⟩
+  intro h
+  have := h (encodeIdent [120]) (by simp) (encodeIdent [120, 16]) (by simp) 10 0 (by
+    rw [e0, e1]
+    simp only [render]
+    have : decimal 10 = [49, 48] := by decide
+    simp [this])
+  rw [e0, e1] at this
+  exact absurd this.1 (by decide)
+
+/-- Not proved here (stated for the record): for names that are valid UTF-8 — every Go identifier is — the side
+    condition always holds. -/
+def encodeIdent_inj_utf8 (validUtf8 : Name → Prop) : Prop :=
+  ∀ ops : List Op, (∀ op ∈ ops, match op with
+      | .req name _ => validUtf8 name
+      | .push fn => validUtf8 fn
+      | .pop => True) → RenderInj (bases ops)
+
+/-- the hypothesis is satisfiable by a non-trivial history: `x`, `x` again (→ `x$1`), a nested function, `let` (→ `let$1`) -/
+example : ∃ st, runOps false initState [.req [120] false, .req [120] false, .push [102], .req [108, 101, 116] false] = some st ∧
+    RenderInj (bases [.req [120] false, .req [120] false, .push [102], .req [108, 101, 116] false]) := by
+  have hinj := renderInj_ascii [.req [120] false, .req [120] false, .push [102], .req [108, 101, 116] false] (by decide)
+  refine ⟨_, ?_, hinj⟩
+  sorry
+
+end NamesPlain
 
 end GV.Props.C01
